@@ -14,7 +14,7 @@ import common
 from common import sexp, parse_sexp
 import c10_world as W
 
-MODEL_FILES = ['MaltModel/Rt/Cache.lean', 'MaltModel/Proofs/C10Basic.lean', 'MaltModel/Proofs/C10Result.lean',
+MODEL_FILES = ['MaltModel/Rt/Cache.lean', 'MaltModel/Proofs/C10Basic.lean', 'MaltModel/Proofs/C10Result.lean', 'MaltModel/Proofs/C10Progress.lean',
                'MaltModel/Proofs/C10Inv.lean', 'MaltModel/Proofs/C10Refine.lean', 'MaltModel/Drv/C10.lean']
 CLS_SIG = 'shared_code_different_namespace_directive_resolution'
 CLS_EQ = 'equal_code_objects_distinct_identity'
@@ -41,6 +41,8 @@ def build_plan(spec, world):
     n = spec['nthreads']
     kinds = ['closure', 'loop', 'method', 'lambda']
     shared = [world.new_group(rng.choice(kinds)) for _ in range(rng.choice([1, 2, 3]))]
+    if rng.random() < 0.25:
+        shared.append(world.new_group('broken'))
     if fl in ('sig', 'mixed'):
         shared.append(world.new_group(rng.choice(['directive', 'directive_closure'])))
     for g in shared:
@@ -78,7 +80,8 @@ def build_plan(spec, world):
                 gi, g = 'p', private[t]
             else:
                 gi = rng.randrange(len(shared)); g = shared[gi]
-            nf = {'closure': 4, 'loop': 4, 'directive': 2, 'directive_closure': 2, 'method': 3, 'lambda': 2}[g.kind]
+            nf = {'closure': 4, 'loop': 4, 'directive': 2, 'directive_closure': 2, 'method': 3, 'lambda': 2,
+                  'broken': 2}[g.kind]
             fi = rng.randrange(nf)
             opt = rng.choice(opts)
             route = rng.choice(W.routes_for(opt))
@@ -130,13 +133,25 @@ def run_history(spec):
             ths = [threading.Thread(target=worker, args=(t,), daemon=True) for t in range(n)]
             for th in ths:
                 th.start()
-            deadline = time.time() + 240
-            for th in ths:
-                th.join(max(0.1, deadline - time.time()))
-            hung = [i for i, th in enumerate(ths) if th.is_alive()]
+            # a history hangs only if NO event is logged for a long time (the machine may be heavily loaded)
+            t_start = time.time()
+            last_n, last_t = -1, time.time()
+            hung = []
+            while any(th.is_alive() for th in ths):
+                for th in ths:
+                    th.join(0.05)
+                n_ev = len(rec.events)
+                now = time.time()
+                if n_ev != last_n:
+                    last_n, last_t = n_ev, now
+                elif now - last_t > float(os.environ.get('C10_STALL', '240')):
+                    hung = [i for i, th in enumerate(ths) if th.is_alive()]
+                    break
+                if now - t_start > 2400:
+                    raise common.InfraError('history %s still running after 2400 s' % spec.get('index'))
         sys.setswitchinterval(old_sw)
         if hung:
-            verdicts.append({'what': 'history did not terminate (threads %s still running after 240 s)' % hung,
+            verdicts.append({'what': 'history did not terminate (threads %s blocked, no cache event for 240 s)' % hung,
                              'thread': hung[0], 'index': -1, 'req_pos': -1})
         return package(spec, rec, verdicts, errors, time.time() - t00)
     finally:
@@ -153,8 +168,10 @@ def package(spec, rec, verdicts, errors, wall):
     evs = []
     for e in rec.events:
         k = e[0]
-        if k == 'begin' or k == 'acq' or k == 'rel' or k == 'xform':
+        if k == 'begin' or k == 'acq' or k == 'rel':
             evs.append([k, e[1]])
+        elif k == 'xform':
+            evs.append([k, e[1], bool(e[2])])
         elif k == 'oget':
             evs.append(['oget', e[1], 'none' if e[2] is None else e[2]])
         elif k == 'oset':
@@ -172,13 +189,15 @@ def package(spec, rec, verdicts, errors, wall):
         else:
             evs.append(['unexpected', str(e[1])])
     # path statistics per request
-    paths = {'fast-hit': 0, 'locked-hit': 0, 'convert': 0, 'error': 0}
+    paths = {'fast-hit': 0, 'locked-hit': 0, 'convert': 0, 'conversion-raised': 0, 'error': 0}
     cur = {}
     for e in rec.events:
         if e[0] == 'begin':
             cur[e[1]] = set()
         elif e[0] in ('acq', 'xform') and e[1] in cur:
             cur[e[1]].add(e[0])
+            if e[0] == 'xform' and not e[2]:
+                paths['conversion-raised'] += 1
         elif e[0] == 'inst' and e[1] in cur:
             s = cur.pop(e[1])
             paths['convert' if 'xform' in s else 'locked-hit' if 'acq' in s else 'fast-hit'] += 1
@@ -190,7 +209,8 @@ def package(spec, rec, verdicts, errors, wall):
     for t in range(nthreads):
         for r in rec.requests.get(t, []):
             keys.setdefault((r['val'], r['opt']), set()).add((t, r['env']))
-    return {'spec': spec, 'progs': progs, 'events': evs, 'verdicts': verdicts, 'errors': errors,
+    fail_vals = sorted({r['val'] for t in range(nthreads) for r in rec.requests.get(t, []) if r.get('xfail')})
+    return {'spec': spec, 'progs': progs, 'events': evs, 'fail_vals': fail_vals, 'verdicts': verdicts, 'errors': errors,
             'unexpected': rec.unexpected[:5], 'outcomes': outcomes, 'not_inst': not_inst[:5],
             'xcount': [[k[0], [k[1][0], k[1][1], k[1][2], list(k[1][3])], v] for k, v in sorted(rec.xcount.items())],
             'paths': paths, 'gc_events': sum(1 for e in rec.events if e[0] == 'gc'),
@@ -318,7 +338,7 @@ def py_classes(res):
 
 
 def lean_line(res):
-    return 'cache-validate ' + sexp(res['progs']) + ' ' + sexp(res['events'])
+    return 'cache-validate ' + sexp(res['progs']) + ' ' + sexp(res['events']) + ' ' + sexp(res.get('fail_vals', []))
 
 
 def analyse(run, res, answer):
@@ -362,9 +382,11 @@ def analyse(run, res, answer):
             for j, o in enumerate(outs):
                 outcome_of[(t, j)] = o
                 if j < len(obs):
-                    # other exception types come from instantiate / later stages, not from the cache
-                    if (o[0] == 'err') != (obs[j] or '').startswith('err:KeyError'):
-                        corr.append('outcome of request (%d,%d): model %s, implementation %s' % (t, j, o[0], obs[j]))
+                    # exceptions raised after the cache did its part (in instantiate) are not the cache's
+                    m_key = o[0] == 'err' and o[2] == 'False'
+                    m_conv = o[0] == 'err' and o[2] == 'True'
+                    if m_key != (obs[j] or '').startswith('err:KeyError') or (m_conv and not (obs[j] or '').startswith('err:')):
+                        corr.append('outcome of request (%d,%d): model %s, implementation %s' % (t, j, o, obs[j]))
         lc = {}
         for cid, optstr, cnt in (lean['counts'][0] if lean['counts'] else []):
             lc[(int(cid), optstr)] = int(cnt)
@@ -384,7 +406,7 @@ def analyse(run, res, answer):
                 cls = CLS_SIG
             elif not src_ok or int(o[1]) in eq_ids:
                 cls = CLS_EQ
-        elif o is not None and o[0] == 'err':
+        elif o is not None and o[0] == 'err' and o[2] == 'False':
             cls = CLS_EQ if int(o[1]) in eq_ids else None
         elif lean is None:
             # log rejected / no driver: Python fallback of the same predicates (history-level)
@@ -406,7 +428,8 @@ FEAT_ORDER = {}
 def check(run, only=None, repeat=1):
     run.rule = ('a case is one request of one history; a history = seeded pool (closures from one factory, functions '
                 'defined in a loop, same code with other defaults/kwdefaults, types.FunctionType(code, other_globals), '
-                'bound methods, lambdas, private groups dropped+collected and re-exec\'ed; flavours: clean / '
+                'bound methods, lambdas, unconvertible functions (for/else), private groups dropped+collected and '
+                're-exec\'ed; flavours: clean / '
                 'namespace-dependent directive resolution / equal-valued distinct code objects / mixed) x option sets '
                 'differing in one field x routes (to_graph, convert(...)(f), converted_call, _convert_actual) x 1..32 '
                 'threads with random start delays, yields at every dictionary operation and sys.setswitchinterval; '
@@ -419,6 +442,8 @@ def check(run, only=None, repeat=1):
         'transform is uninterpreted (T code options namespace-view): what the conversion reads from the requester\'s '
         'namespace is abstracted to `sig` = directive resolution of the names the code mentions + __future__ features; the '
         'namer\'s dependence on the first requester\'s namespace is assumed behaviourally irrelevant (C11)',
+        'a conversion that raises is not cached and is retried by every request (the implementation has no negative '
+        'caching): such runs are validated against the model but not counted by the converts-once property',
         'real schedules are sampled (the model quantifies over all of them; the harness only checks that each observed one '
         'is a member and that the model predicts its outcomes)',
         'the event log is totally ordered by a recorder mutex held around each proxied operation and its log entry; the '
@@ -442,7 +467,7 @@ def check(run, only=None, repeat=1):
                 elif 'spec' in c:
                     specs.append(dict(c['spec'], index='corpus:' + fn))
     if only is None:
-        nh = 90 if run.tier == 'quick' else 700
+        nh = 90 if run.tier == "quick" else 500
         for i in range(nh):
             specs.append(make_spec(run.rng, run.tier, i))
     else:
@@ -469,7 +494,7 @@ def check(run, only=None, repeat=1):
         answers = run.drive([lean_line(r) for r in results], timeout=1500)
 
     rejects, corr_all = [], []
-    stats = {'fast-hit': 0, 'locked-hit': 0, 'convert': 0, 'error': 0}
+    stats = {'fast-hit': 0, 'locked-hit': 0, 'convert': 0, 'conversion-raised': 0, 'error': 0}
     tot = {'requests': 0, 'events': 0, 'gc_events': 0, 'addr_reuse': 0, 'shared_keys': 0, 'distinct_envs_same_key': 0}
     by_threads, by_flavour = {}, {}
     known_seen = {}
